@@ -18,9 +18,11 @@ import (
 	"bytes"
 	"encoding/json"
 	"fmt"
+	"io"
 	"math"
 	"math/rand"
 	"os"
+	"reflect"
 	"strconv"
 	"strings"
 
@@ -45,6 +47,15 @@ type Case struct {
 	Pay   []int  `json:"pay"`
 	Frame string `json:"frame"`
 	Blk   int    `json:"blk"`
+	// Pat names the index function TLC built Pay from ("" for seeded random bytes): the
+	// trace then carries the name instead of the bytes. Per: period (in points) the
+	// observation may be logged with. Dl: delivery of the file (see pieces). La, Lg: the
+	// array / granularity a size-ladder stream was generated for (echoed).
+	Pat string `json:"pat"`
+	Per int    `json:"per"`
+	Dl  int    `json:"dl"`
+	La  string `json:"la"`
+	Lg  int    `json:"lg"`
 	// cloud: integer codes in 1/Unit (TLC) or floats (seeded generator)
 	Unit    int      `json:"unit"`
 	Splats  []ISplat `json:"splats"`
@@ -156,6 +167,71 @@ type spzDec struct {
 	Scale  [][]int   `json:"scale"`
 	Rot    [][]int   `json:"rot"`
 	Sh     [][][]int `json:"sh"`
+	// entries [i, value] of the arrays above that were dropped from them because
+	// i >= per; only those that differ from entry i-per are listed (lossless:
+	// entry i is the listed one, else entry i-per)
+	XPos   []interface{} `json:"xpos"`
+	XAlpha []interface{} `json:"xalpha"`
+	XColor []interface{} `json:"xcolor"`
+	XScale []interface{} `json:"xscale"`
+	XRot   []interface{} `json:"xrot"`
+	XSh    []interface{} `json:"xsh"`
+}
+
+// periodic keeps the first per entries and lists [i, entry] for every later
+// entry that differs from entry i-per (per <= 0: everything is kept).
+func periodic[T any](all []T, per int) ([]T, []interface{}) {
+	exc := []interface{}{}
+	if per <= 0 || len(all) <= per {
+		return all, exc
+	}
+	for i := per; i < len(all); i++ {
+		if !reflect.DeepEqual(all[i], all[i-per]) {
+			exc = append(exc, []interface{}{i, all[i]})
+		}
+	}
+	return all[:per], exc
+}
+
+// pieces delivers data as an io.Reader may: at most g bytes per Read, every
+// piece ending at a multiple of g (dl = g), optionally the last piece together
+// with io.EOF (dl = 100000 + g). dl = 0: a plain bytes.Reader.
+type pieces struct {
+	data    []byte
+	off, g  int
+	eofWith bool
+}
+
+func (p *pieces) Read(b []byte) (int, error) {
+	if p.off >= len(p.data) {
+		return 0, io.EOF
+	}
+	if len(b) == 0 {
+		return 0, nil
+	}
+	n := p.g - p.off%p.g
+	if n > len(b) {
+		n = len(b)
+	}
+	if n > len(p.data)-p.off {
+		n = len(p.data) - p.off
+	}
+	copy(b, p.data[p.off:p.off+n])
+	p.off += n
+	if p.eofWith && p.off == len(p.data) {
+		return n, io.EOF
+	}
+	return n, nil
+}
+
+func deliver(data []byte, dl int) io.Reader {
+	if dl <= 0 {
+		return bytes.NewReader(data)
+	}
+	if dl >= 100000 {
+		return &pieces{data: data, g: dl - 100000, eofWith: true}
+	}
+	return &pieces{data: data, g: dl}
 }
 
 type spzLine struct {
@@ -163,6 +239,13 @@ type spzLine struct {
 	Id    int    `json:"id"`
 	Hdr   []int  `json:"hdr"`
 	Pay   []int  `json:"pay"`
+	Pat   string `json:"pat"`
+	Per   int    `json:"per"`
+	PLen  int    `json:"plen"` // length and byte sum of the payload that was really encoded
+	PSum  int    `json:"psum"`
+	Dl    int    `json:"dl"`
+	La    string `json:"la"`
+	Lg    int    `json:"lg"`
 	Frame string `json:"frame"`
 	Ok    bool   `json:"ok"`
 	Msg   string `json:"msg"`
@@ -171,7 +254,9 @@ type spzLine struct {
 
 func emptySpzDec() spzDec {
 	return spzDec{Hdr: []int{}, Lens: []int{}, ShLens: []int{}, Other: []string{}, Pos: [][][]int{}, Alpha: [][]int{},
-		Color: [][]int{}, Scale: [][]int{}, Rot: [][]int{}, Sh: [][][]int{}}
+		Color: [][]int{}, Scale: [][]int{}, Rot: [][]int{}, Sh: [][][]int{},
+		XPos: []interface{}{}, XAlpha: []interface{}{}, XColor: []interface{}{}, XScale: []interface{}{},
+		XRot: []interface{}{}, XSh: []interface{}{}}
 }
 
 func v3units(v vector3.Float64, u float64) []int {
@@ -182,7 +267,14 @@ func v3units(v vector3.Float64, u float64) []int {
 }
 
 func runSpz(c Case) (line spzLine) {
-	line = spzLine{K: "spz", Id: c.Id, Hdr: c.Hdr, Pay: c.Pay, Frame: c.Frame, Dec: emptySpzDec()}
+	line = spzLine{K: "spz", Id: c.Id, Hdr: c.Hdr, Pay: c.Pay, Frame: c.Frame, Dec: emptySpzDec(),
+		Pat: c.Pat, Per: c.Per, Dl: c.Dl, La: c.La, Lg: c.Lg, PLen: len(c.Pay)}
+	for _, b := range c.Pay {
+		line.PSum += b & 0xff
+	}
+	if c.Pat != "" {
+		line.Pay = []int{} // the judge recomputes the bytes from the pattern name
+	}
 	stream, _, err := refenc.SpzStream(c.Hdr, c.Pay)
 	if err != nil {
 		panic(err)
@@ -200,7 +292,7 @@ func runSpz(c Case) (line spzLine) {
 			line.Dec = emptySpzDec()
 		}
 	}()
-	cloud, err := spz.Read(bytes.NewReader(file))
+	cloud, err := spz.Read(deliver(file, c.Dl))
 	if err != nil || cloud == nil {
 		line.Msg = fmt.Sprint(err)
 		return line
@@ -283,6 +375,12 @@ func runSpz(c Case) (line spzLine) {
 		}
 		d.Sh = append(d.Sh, row)
 	}
+	d.Pos, d.XPos = periodic(d.Pos, c.Per)
+	d.Alpha, d.XAlpha = periodic(d.Alpha, c.Per)
+	d.Color, d.XColor = periodic(d.Color, c.Per)
+	d.Scale, d.XScale = periodic(d.Scale, c.Per)
+	d.Rot, d.XRot = periodic(d.Rot, c.Per)
+	d.Sh, d.XSh = periodic(d.Sh, c.Per)
 	line.Dec = d
 	return line
 }
@@ -381,6 +479,7 @@ type splatLine struct {
 	RErr   bool        `json:"rerr"`
 	DecN   int         `json:"decn"`
 	Dec    []splatVals `json:"dec"`
+	Dl     int         `json:"dl"`
 	Msg    string      `json:"msg"`
 }
 
@@ -407,7 +506,7 @@ func projectSplat(p, s, c []float64, a float64, r []float64, exact bool) splatVa
 }
 
 func runSplat(c Case, cd cloudData) (line splatLine) {
-	line = splatLine{K: "splat", Id: c.Id, N: len(cd.splats), Orig: []splatVals{}, Rec: []splatRec{}, Dec: []splatVals{}}
+	line = splatLine{K: "splat", Id: c.Id, Dl: c.Dl, N: len(cd.splats), Orig: []splatVals{}, Rec: []splatRec{}, Dec: []splatVals{}}
 	for _, s := range cd.splats {
 		line.Orig = append(line.Orig, projectSplat(s.P, s.S, s.C, s.A, s.R, false))
 	}
@@ -449,7 +548,7 @@ func runSplat(c Case, cd cloudData) (line splatLine) {
 				line.Dec = []splatVals{}
 			}
 		}()
-		m, err := splat.Read(bytes.NewReader(data))
+		m, err := splat.Read(deliver(data, c.Dl))
 		if err != nil {
 			line.RErr = true
 			line.Msg += " read: " + err.Error()
@@ -520,6 +619,7 @@ type splyLine struct {
 	DecN    int        `json:"decn"`
 	DecTopo string     `json:"dectopo"`
 	Dec     []attrVals `json:"dec"`
+	Dl      int        `json:"dl"`
 	Msg     string     `json:"msg"`
 }
 
@@ -570,7 +670,7 @@ func meshAttrs(m modeling.Mesh, exact bool) []attrVals {
 }
 
 func runSplatPly(c Case, cd cloudData) (line splyLine) {
-	line = splyLine{K: "sply", Id: c.Id, N: len(cd.splats), Orig: meshAttrs(cd.mesh, false), Props: []propVals{}, Dec: []attrVals{}}
+	line = splyLine{K: "sply", Id: c.Id, Dl: c.Dl, N: len(cd.splats), Orig: meshAttrs(cd.mesh, false), Props: []propVals{}, Dec: []attrVals{}}
 	var buf bytes.Buffer
 	func() {
 		defer func() {
@@ -629,7 +729,7 @@ func runSplatPly(c Case, cd cloudData) (line splyLine) {
 				line.Dec = []attrVals{}
 			}
 		}()
-		m, err := ply.ReadMesh(bytes.NewReader(data))
+		m, err := ply.ReadMesh(deliver(data, c.Dl))
 		if err != nil || m == nil {
 			line.RErr = true
 			line.Msg += " read: " + fmt.Sprint(err)
